@@ -476,6 +476,12 @@ impl Report {
       });
     }
   }
+  /// the implementation differs from the faithful model on a behaviour the property does not fix
+  /// (bin/check reports it as a broken correspondence, "no-failing-input-found", unless a
+  /// property-level violation is found in the same run)
+  pub fn corr_break(&mut self, what: &str, case_line: &str, impl_obs: &str, model_obs: &str, correspondence: &str) {
+    self.violation_c(what, case_line, impl_obs, model_obs, correspondence, &format!("CORR:{}", correspondence));
+  }
   pub fn known(&mut self, id: &str, what: &str) {
     let e = self.known_hits.entry(id.to_string()).or_insert((0, what.to_string()));
     e.0 += 1;
